@@ -16,7 +16,8 @@ TAGS = {"sb-crc32": 1, "ohdr-no-checksum": 2, "fixed-props-malformed": 3, "float
         "string-extra-prop-byte": 6, "pipeline-v2-with-v1-layout": 7, "refcount-msg-no-version": 8, "extlink-value-layout": 9,
         "fheap-hdr-crc32": 10, "fheap-addr-0-not-undef": 11, "fhdb-trailing-crc32": 12, "btree2-crc32": 13, "gcol-free-size": 14,
         "btree1-node-over-capacity": 15, "snod-over-capacity": 16, "heap-name-offset-0": 17, "attrinfo-type-0x0f": 18,
-        "dataset-no-fillvalue-msg": 19, "softlink-stored-as-object": 20, "chunk-dims-no-elem-dim": 21, "chunk-btree-addr-0": 22}
+        "dataset-no-fillvalue-msg": 19, "softlink-stored-as-object": 20, "chunk-dims-no-elem-dim": 21, "chunk-btree-addr-0": 22,
+        "compound-v3-layout": 23, "enum-v3-layout": 24}
 TAGNAME = {v: k for k, v in TAGS.items()}
 
 # kind -> (code in Model/SpecTie.v obs, tags decidable from the bytes of one structure of that kind)
